@@ -86,7 +86,7 @@ def emit_term(case):
     nl, ln, col = case
     lines = "(repeat 0%nat " + str(nl) + ")"
     c = "None" if col is None else f"(Some ({col})%Z)"
-    return f"emit {lines} (Some ({ln})%Z) {c}"
+    return f"emit_p show_error_params {lines} (Some ({ln})%Z) {c}"
 
 
 def decode_emit(res):
